@@ -23,6 +23,7 @@ import Driver.HybridOps
 import Driver.ProfileOps
 import Driver.ValidateOps
 import Driver.ExportOps
+import Driver.ProtoOps
 open Lean Driver
 
 def dispatch (op : String) (j : Json) : Except String Json :=
@@ -44,6 +45,7 @@ def dispatch (op : String) (j : Json) : Except String Json :=
   | "profile" => profileOp op j
   | "validate" => validateOp op j
   | "export" => exportOp op j
+  | "proto" => protoOp op j
   | _ => .error s!"unknown op family in '{op}'"
 
 def handle (line : String) : String :=
